@@ -60,9 +60,14 @@ def main():
             meta["tests_pass"] = "873 passed" in r.stdout
         meta["confirmed"] = (meta["demo_clean_exit"] == 0 and meta["demo_mutated_exit"] != 0 and meta.get("tests_pass", True))
         meta["checks"] = {}
+        # the checks run from a private copy of /verif: coq/Gen and the .vo files are regenerated from the
+        # mutated tree and must not race with checks running on /repo at the same time
+        vcopy = "/tmp/vseed_" + a.name
+        shutil.rmtree(vcopy, ignore_errors=True)
+        sh("rsync -a --exclude build --exclude .git %s/ %s/" % (ROOT, vcopy))
         for c in checks:
             t0 = time.time()
-            r = subprocess.run(["./check", c, "--tier", a.tier], cwd=ROOT, env=dict(os.environ, VERIF_REPO=wt), capture_output=True, text=True)
+            r = subprocess.run(["./check", c, "--tier", a.tier], cwd=vcopy, env=dict(os.environ, VERIF_REPO=wt), capture_output=True, text=True)
             vio = [l for l in r.stdout.splitlines() if l.startswith("VIOLATION")]
             fails = [l for l in r.stdout.splitlines() if "OBLIGATION FAILED" in l]
             meta["checks"][c] = {"exit": r.returncode, "violation_lines": vio, "failed_obligations": [f[:300] for f in fails][:6],
@@ -75,6 +80,7 @@ def main():
                     os.makedirs(os.path.join(ROOT, "seeded", a.name), exist_ok=True)
                     shutil.copy(p, os.path.join(ROOT, "seeded", a.name, "replay_%s.json" % c))
     finally:
+        shutil.rmtree("/tmp/vseed_" + a.name, ignore_errors=True)
         sh("git -C /repo worktree remove --force %s" % wt); shutil.rmtree(wt, ignore_errors=True)
         sh("git -C /repo worktree prune")
     dst = os.path.join(ROOT, "seeded", a.name)
